@@ -451,6 +451,22 @@ def dataset_obj(name: str, rankings: List[List[set]], ids: Dict[str, int], compl
     return o
 
 
+class _ConsObj(Obj):
+    """Stand-in for a Consensus: its rankings through the attribute, by index, by iteration, and their number."""
+
+    def __init__(self, rankings):
+        super().__init__("CONS", {"consensus_rankings": rankings})
+
+    def abs_getitem(self, idx, node):
+        return self.attrs["consensus_rankings"][idx]
+
+    def abs_iter(self):
+        return list(self.attrs["consensus_rankings"])
+
+    def abs_len(self):
+        return len(self.attrs["consensus_rankings"])
+
+
 def eval_departure(proj: Project, sc: Scenario, starters: List[List[set]]):
     """Abstractly evaluate BioConsert._departure_rankings for scenario `sc`. `starters` = consensus ranking returned
     by each starting algorithm ([] = no starting algorithm). Returns (Mat | list result, log of starter calls)."""
@@ -465,7 +481,7 @@ def eval_departure(proj: Project, sc: Scenario, starters: List[List[set]]):
     for k, cons in enumerate(starters):
         def ccr(ev, call, a, kw, k=k, cons=cons):
             calls.append((k, a, kw))
-            return Obj("CONS", {"consensus_rankings": [cons]})
+            return _ConsObj([cons])
         algs.append(Obj(f"ALG{k}", methods={"compute_consensus_rankings": ccr}))
     funcs = np_funcs(mod)
 
